@@ -62,10 +62,69 @@ func buildTemplate(cols []colDesc) jsonline.Template {
 		if c.sub != nil {
 			t.WithRow(c.name, buildTemplate(c.sub))
 		} else {
-			t.With(c.name, c.f, typeSample[c.typName])
+			withColumn(t, c)
 		}
 	}
 	return t
+}
+
+// one column through the generic builder or through the builder method dedicated to its format (every second column,
+// by a hash of its description): WithString ... WithHidden, WithMappedString ... WithMappedAuto
+func withColumn(t jsonline.Template, c colDesc) {
+	typ := typeSample[c.typName]
+	h := 0
+	for _, b := range []byte(c.name + c.typName) {
+		h = h*31 + int(b)
+	}
+	if h%2 == 0 || c.f == jsonline.Hidden && typ != nil {
+		t.With(c.name, c.f, typ)
+		return
+	}
+	if typ == nil {
+		switch c.f {
+		case jsonline.String:
+			t.WithString(c.name)
+		case jsonline.Numeric:
+			t.WithNumeric(c.name)
+		case jsonline.Boolean:
+			t.WithBoolean(c.name)
+		case jsonline.Binary:
+			t.WithBinary(c.name)
+		case jsonline.Date:
+			t.WithDate(c.name)
+		case jsonline.DateTime:
+			t.WithDateTime(c.name)
+		case jsonline.Timestamp:
+			t.WithTimestamp(c.name)
+		case jsonline.Auto:
+			t.WithAuto(c.name)
+		case jsonline.Hidden:
+			t.WithHidden(c.name)
+		default:
+			t.With(c.name, c.f, typ)
+		}
+		return
+	}
+	switch c.f {
+	case jsonline.String:
+		t.WithMappedString(c.name, typ)
+	case jsonline.Numeric:
+		t.WithMappedNumeric(c.name, typ)
+	case jsonline.Boolean:
+		t.WithMappedBoolean(c.name, typ)
+	case jsonline.Binary:
+		t.WithMappedBinary(c.name, typ)
+	case jsonline.Date:
+		t.WithMappedDate(c.name, typ)
+	case jsonline.DateTime:
+		t.WithMappedDateTime(c.name, typ)
+	case jsonline.Timestamp:
+		t.WithMappedTimestamp(c.name, typ)
+	case jsonline.Auto:
+		t.WithMappedAuto(c.name, typ)
+	default:
+		t.With(c.name, c.f, typ)
+	}
 }
 
 func (c colDesc) String() string {
